@@ -21,6 +21,7 @@ fn main() {
         cap: 3,
         start_peer_id: 0,
         defer: false,
+        wraps: 0,
     };
     let cfgs = match run.tier {
         Tier::Quick => vec![
@@ -33,6 +34,9 @@ fn main() {
             NCfg { addrs: 2, disconnects: 2, remote_sends: 1, net_sends: 1, advances: 0, start_peer_id: u32::MAX - 1, ..base.clone() },
             // the application leaves connection requests undecided across other peers' traffic and ticks
             NCfg { defer: true, addrs: 2, remote_sends: 0, net_sends: 1, advances: 2, ..base.clone() },
+            // the peer id counter comes round onto live peers
+            NCfg { wraps: 1, addrs: 3, remote_sends: 0, net_sends: 0, advances: 0, disconnects: 1, ..base.clone() },
+            NCfg { accepting: false, wraps: 1, addrs: 3, net_connects: 3, remote_sends: 0, net_sends: 0, advances: 0, ..base.clone() },
         ],
         Tier::Thorough => vec![
             NCfg { defer: true, addrs: 3, remote_sends: 0, net_sends: 0, advances: 1, ..base.clone() },
@@ -43,6 +47,7 @@ fn main() {
             NCfg { accepting: false, addrs: 2, net_connects: 2, remote_sends: 1, net_sends: 1, advances: 2, drops: 1, garbage: 0, ..base.clone() },
             NCfg { defer: true, addrs: 2, remote_sends: 1, net_sends: 1, advances: 2, disconnects: 1, ..base.clone() },
             NCfg { defer: true, addrs: 3, remote_sends: 0, net_sends: 1, advances: 2, ..base.clone() },
+            NCfg { wraps: 2, addrs: 4, remote_sends: 0, net_sends: 0, advances: 0, disconnects: 1, ..base.clone() },
         ],
     };
     let mut outcomes = Vec::new();
@@ -60,7 +65,7 @@ fn main() {
     run.assume("a connection request is decided (accept / reject / ignore) either at once on the Connect event or, in the defer configurations, at any later step while the peer is still unconnected; a retransmitted request that reaches an undecided peer makes its connection answer by itself (the reference connection does the same) and the decision is then moot");
     run.assume("connect requests from unknown addresses are the two forms real clients send (with and without the DDNet token extension)");
     run.finish(
-        "explicit-state exploration (stateright BFS) of one real Net + per-address real remote connections + per-address reference connections; after every step events (peer ids mapped to addresses), outgoing datagrams with destination, needs_tick and the complete per-peer state must equal the references; peer ids must be distinct",
+        "explicit-state exploration (stateright BFS) of one real Net + per-address real remote connections + per-address reference connections; after every step events (peer ids mapped to addresses), outgoing datagrams with destination, needs_tick and the complete per-peer state must equal the references; peer ids must be distinct, also after the 32-bit peer id counter has come round onto live peers (CounterWrap)",
         true,
     );
 }
